@@ -23,6 +23,13 @@ def _spec(name):
     return json.load(open(os.path.join(VERIF, "spec", "wire", name)))
 
 
+# methods of atxled.py / daliserver.py that exist on the pinned tree: analysed
+# as units, never inlined (a helper extracted later is)
+OTHER_PRIMITIVES = ("__init__", "read_line", "construct", "extract", "close",
+                    "send", "unpack_response", "__enter__", "__exit__",
+                    "wait_for_idle")
+
+
 def _fn(world, cq, name):
     r = world.method(cq, name)
     fn = r[2]
@@ -34,6 +41,16 @@ def _fn(world, cq, name):
         fn = expand_method(
             world, world.cls(cq), r[2],
             aliases=True if r[0].mod == SER else "params")
+    else:
+        # other drivers: conditional values written as if/else, helpers
+        # inlined
+        from ..normal import normalise
+        try:
+            fn = normalise(fn, world, r[0].mod, world.cls(cq),
+                           primitives=OTHER_PRIMITIVES,
+                           aliases=False, lift_values=True)
+        except AnalysisError:
+            fn = r[2]
     # a status -> constructor table reads as the if-chain it abbreviates
     from ..unroll import expand_table_lookups, class_table_resolver
     from ..inline import acopy
@@ -454,12 +471,41 @@ def _check_stat(run, repo, world, folder):
     owner, fn = _fn(world, ATX + ".DaliHatSerialDriver", "extract")
     mod = repo.mod(ATX)
     Q = ATX + ".DaliHatSerialDriver.extract"
-    tests = [unparse(n.test) for n in ast.walk(fn) if isinstance(n, ast.If)]
-    rets = [unparse(n.value) for n in ast.walk(fn) if isinstance(
-        n, ast.Return) and n.value is not None]
-    run.ob("R-STAT", Q + "#reply", "data.startswith('J')" in tests and
-           "BackwardFrame(data)" in rets and "None" in rets and any(
-               unparse(n) == "int(data[1:], 16)" for n in ast.walk(fn)),
+    # 'J'+hex -> BackwardFrame(int(hex, 16)), anything else None: decided
+    # on the paths of extract() (exceptions of the try body included)
+    from .. import paths as _paths
+    dparam = fn.args.args[1].arg
+    try:
+        eps = _paths.summaries(fn, try_prefixes=True)
+    except _paths.Unsupported as e:
+        raise AnalysisError("R-STAT: ATX extract() is not loop-free: %s" % e)
+    okr = True
+    nframe = 0
+    jtest = "%s.startswith('J')" % dparam
+    for p_ in eps:
+        isj = None
+        exc = False
+        for (t_, b_) in p_.conds:
+            if unparse(t_) == jtest:
+                isj = b_
+            elif isinstance(t_, ast.Name) and t_.id.startswith("<"):
+                exc = True
+        val = p_.expr if p_.kind == "return" else None
+        is_none = val is None or (isinstance(val, ast.Constant) and
+                                  val.value is None)
+        if p_.kind == "raise":
+            okr = False
+        elif isj and not exc:
+            k_ = world.resolve_class(ATX, val.func) if isinstance(
+                val, ast.Call) else None
+            good = k_ is not None and k_.qname == "dali.frame.BackwardFrame" \
+                and len(val.args) == 1 and unparse(val.args[0]) == \
+                "int(%s[1:], 16)" % dparam
+            nframe += good
+            okr = okr and good
+        else:
+            okr = okr and is_none
+    run.ob("R-STAT", Q + "#reply", okr and nframe >= 1,
            "'J'+hex must become BackwardFrame(int(hex, 16)), anything else "
            "None", where(mod, fn))
     # ---- LUBA / SCI answer value -------------------------------------------
@@ -683,6 +729,8 @@ def _check_flush(run, repo, world):
         for name, (kind, fn) in c.methods.items():
             if name not in ("reset_dali_response",):
                 continue
+            from ..normal import normalise
+            fn = normalise(fn, world, SER, c, aliases=True)
             Q = "%s.%s" % (c.qname, name)
             # every get_nowait() of the flush: inside a loop, and the
             # nearest enclosing emptiness test is about the same queue
@@ -748,8 +796,35 @@ def _check_flush(run, repo, world):
                        (SER + ".DriverSCIRS232.SCIRS232Protocol",
                         ["self._queue_rx_raw_dali", "self._queue_rx_info"])):
         c = world.cls(cq)
-        fn = c.methods["reset_dali_response"][1]
+        from ..normal import normalise
+        fn = normalise(c.methods["reset_dali_response"][1], world, SER, c,
+                       aliases=True)
         txt = ast.unparse(fn)
+        # ... on every path: the exit cannot be reached without passing a
+        # look at each queue (an early return after the first queue must
+        # not skip the second)
+        fcfg = CFG(fn, may_raise=lambda n: False, name=cq +
+                   ".reset_dali_response")
+        for q in queues:
+            looks = {n.id for n in fcfg.reachable if n.ast is not None and (
+                (q + ".qsize()") in unparse(n.ast, 400) or
+                (q + ".empty()") in unparse(n.ast, 400))}
+            seen, stack = set(), [fcfg.entry]
+            skipped = False
+            while stack:
+                n = stack.pop()
+                if n.id in seen or n.id in looks:
+                    continue
+                seen.add(n.id)
+                if n is fcfg.exit:
+                    skipped = True
+                    break
+                stack += [m for (l, m) in n.succ if l != "exc"]
+            run.ob("R-FLUSH", "%s.reset_dali_response#always:%s" % (
+                cq, q.replace("self.", "")), bool(looks) and not skipped,
+                "the flush can return without looking at %s: a stale item "
+                "left there is taken for the next command's confirmation / "
+                "answer" % q, where(mod, fn))
         for q in queues:
             run.ob("R-FLUSH", "%s.reset_dali_response#covers:%s" % (
                 cq, q.replace("self.", "")),
